@@ -307,17 +307,21 @@ pub fn record_format(seed: u64, thorough: bool, path: &str) -> Value {
         files += 2;
     }
     // skip_option / absent_option on the optional support structures of a bitvector
-    for (len, runs) in contents.iter().take(10) {
+    for (ci, (len, runs)) in contents.iter().take(10).enumerate() {
         let mut b = bv::plain_raw(*len, runs);
         b.enable_rank(); b.enable_select(); if rng.chance(1, 2) { b.enable_select_zero(); }
         let bytes = to_bytes(&b);
-        let mut cur = std::io::Cursor::new(&bytes);
-        let _ = usize::load(&mut cur);
-        let _ = RawVector::load(&mut cur);
-        let mut pos: Vec<u64> = vec![cur.position() / 8];
-        let mut ok = true;
-        for _ in 0..3 { ok &= serialize::skip_option(&mut cur).is_ok(); pos.push(cur.position() / 8); }
-        out.push(json!({"e": "skip", "elems": elems_json(&bytes), "ok": ok, "positions": pos}));
+        // through readers that return everything asked for, and through readers that legally return less per call (pipes, buffered readers)
+        for chunk in [usize::MAX, [1usize, 3, 7, 4096, 5000][ci % 5]] {
+            let mut cur = crate::ser::Counting { inner: crate::ser::Chunked { inner: std::io::Cursor::new(&bytes), chunk }, count: 0 };
+            let _ = usize::load(&mut cur);
+            let _ = RawVector::load(&mut cur);
+            let mut pos: Vec<u64> = vec![(cur.count / 8) as u64];
+            let mut ok = true;
+            for _ in 0..3 { ok &= serialize::skip_option(&mut cur).is_ok(); pos.push((cur.count / 8) as u64); }
+            ok &= cur.count % 8 == 0;
+            out.push(json!({"e": "skip", "elems": elems_json(&bytes), "ok": ok, "positions": pos}));
+        }
     }
     let mut buf: Vec<u8> = Vec::new();
     let ok = serialize::absent_option(&mut buf).is_ok();
